@@ -15,9 +15,6 @@ impl Obs {
     pub fn vals(label: impl Into<String>, v: Vec<f64>) -> Obs {
         Obs { label: label.into(), res: Ok(v) }
     }
-    pub fn fail(label: impl Into<String>, why: impl Into<String>) -> Obs {
-        Obs { label: label.into(), res: Err(why.into()) }
-    }
 }
 
 pub fn obs_digest(o: &[Obs]) -> u64 {
